@@ -34,6 +34,7 @@ def run(prog: Program, rep: Report, tier: str):
     rep.rule("R16.4", "memo write only of the looked-up value under the queried key; no other mutation", floor=2)
     rep.rule("R16.5", "dict subclass without shadowing hooks", floor=2)
     rep.rule("R16.6", "the forward reference built for a key names that key (refs.forwardref rules, shared with R11.7)", floor=5)
+    rep.rule("R16.7", "the unwrapped form of a key is what the graph registered (unwrap rules, shared with R11.1)", floor=13)
     cls = prog.cls(f"{MOD}.TypeContext")
     miss = cls.methods.get("__missing__")
     if miss is None:
@@ -107,6 +108,10 @@ def run(prog: Program, rep: Report, tier: str):
     sub.rule("R16.6", "", 0)
     c11.r11_7(prog, sub, rule="R16.6")
     absorb(rep, sub, {"R16.6": "R16.6"})
+    sub = _R("C16", tier)
+    sub.rule("R11.1", "", 0)
+    c11.r11_1(prog, sub)
+    absorb(rep, sub, {"R11.1": "R16.7"})
     # R16.5
     bases = prog.external_bases(cls)
     rep.check("builtins.dict" in bases, "R16.5", cls.qualname, cls.loc, "TypeContext is a dict", f"TypeContext is not a dict subclass (bases {bases})", detail="dict")
